@@ -5,6 +5,7 @@ from .common import Table, reachable_local_fns, in_module
 from .shape_common import (classify, find_cell_accessors, run_jobs, cmp_sites_for, fact_true, label_is_progress)
 from .wake import source_jobs, pending_states, source_ok
 
+EXTRA_CONFIGS = ('default', 'tokio1', 'serde1', 'serde-transport')   # feature configurations re-analysed in the thorough tier
 META = {
     'level': 'other',
     'technique': 'static wake-registration analysis: explicit-state abstract interpretation of the dispatch poll (shape walker) with one small automaton per wake source joined with the context '
